@@ -107,13 +107,22 @@ Section Net.
   Definition constraints_as_df (n : net) : frame :=
     mkFrame (stations n) (cnames n) (match cmat n with None => [] | Some m => m end).
 
-  (* ---------------- register_evse ---------------- *)
+  (* ---------------- register_evse ----------------
+     A repeated station id keeps its position in the dict.  Since 76013ed its voltage / phase angle are
+     overwritten at that index (`reregistration_overwrites`, read from the source by tools/gen_c12.py); before,
+     a second entry was appended to both arrays, which then no longer matched station_ids. *)
   Definition register_evse (s : station) (v ph : Q) (n : net) : option string * net :=
     match cmat n with
     | Some _ => (Some exc_register, n)
     | None =>
-        (None, mkNet (if smem s (stations n) then stations n else stations n ++ [s])
-                     (volts n ++ [v]) (angles n ++ [ph]) (cmat n) (mags n) (cnames n))
+        match col_pos s (stations n) with
+        | Some i =>
+            if reregistration_overwrites
+            then (None, mkNet (stations n) (upd i v (volts n)) (upd i ph (angles n)) (cmat n) (mags n) (cnames n))
+            else (None, mkNet (stations n) (volts n ++ [v]) (angles n ++ [ph]) (cmat n) (mags n) (cnames n))
+        | None =>
+            (None, mkNet (stations n ++ [s]) (volts n ++ [v]) (angles n ++ [ph]) (cmat n) (mags n) (cnames n))
+        end
     end.
 
   (* ---------------- add_constraint ---------------- *)
@@ -367,6 +376,19 @@ Section Net.
     match o with OAdd _ _ _ | OUpdate _ _ _ _ => true | _ => false end.
 
   Definition reg_op (p : station * Q * Q) : op := ORegister (fst (fst p)) (snd (fst p)) (snd p).
+  (* voltage and angle given at the LAST registration of station s in a list of registrations *)
+  Fixpoint last_reg (regs : list (station * Q * Q)) (s : station) : option (Q * Q) :=
+    match regs with
+    | [] => None
+    | p :: r => match last_reg r s with
+                | Some x => Some x
+                | None => if Nat.eqb s (fst (fst p)) then Some (snd (fst p), snd p) else None
+                end
+    end.
+  Definition reg_volt (regs : list (station * Q * Q)) (s : station) : Q :=
+    match last_reg regs s with Some x => fst x | None => 0%Q end.
+  Definition reg_angle (regs : list (station * Q * Q)) (s : station) : Q :=
+    match last_reg regs s with Some x => snd x | None => 0%Q end.
 
   (* the periods selected by time_indices (None = all), or None when numpy raises IndexError *)
   Definition sel_cols (w : nat) (T : option (list Z)) : option (list nat) :=
